@@ -521,3 +521,93 @@ Proof.
   destruct (seg_track_lazy_end_to_end opt f (snd t) T pos0 tx ivs outs Hc Hd Hone Htx Htile Hs Hg) as [res [Hr [He Hne]]].
   exists outs, res. repeat split; assumption.
 Qed.
+
+(* ------------------------------------------------------------------ an EMPTY fragment (no trun optimisation) *)
+(* Resegment's first piece is empty when the first sample already lies beyond the first boundary: the fragment is
+   CreateFragment's, Encode without optimisation succeeds (with it, OptimizeTfhdTrun returns "no samples in trun"),
+   and every reader gets no samples from it *)
+Lemma frag_full_samples_nil h tx r base d : tr_samples r = [] ->
+  frag_full_samples h tx [r] base d =
+  (let bo0 := if tf_has_bdo h then tf_bdo h else df_moof_start d in
+   let bo := if has_doff r then to_u64 (tr_doff r + Z.of_N bo0) else bo0 in
+   let off := if 0 <? bo then u64 (bo + 18446744073709551616 - df_payload_abs d) else 0 in
+   if (0 <? bo) && (lenN (df_data d) <? off) then Err else Ok []).
+Proof.
+  intros Hs. cbn [frag_full_samples]. unfold resolve. rewrite Hs. cbn [map_first]. cbv zeta.
+  destruct ((0 <? (if has_doff r then to_u64 (tr_doff r + Z.of_N (if tf_has_bdo h then tf_bdo h else df_moof_start d))
+                   else if tf_has_bdo h then tf_bdo h else df_moof_start d)) && _); reflexivity.
+Qed.
+
+Lemma write_segment_empty T pos0 : pos0 < 4611686018427387904 ->
+  exists fe, write_segment false T [] = Ok fe /\ forall tx : C05Model.trex, read_back tx pos0 [] fe = Ok [].
+Proof.
+  intros Hpos. unfold write_segment. cbn [add_fulls rbind]. rewrite built_create. unfold built.
+  change (mkFrag [mkTraf (create_tfhd T) (mkTfdt 0 0) [canon 0 []] 0] (mkMdat [] [] 0 false) 1 0 0 0)
+    with (one_m (create_tfhd T) (mkTfdt 0 0) (canon 0 []) (mkMdat [] [] 0 false)).
+  unfold encode_frag. cbn [rbind]. rewrite (set_offsets_one (create_tfhd T) (mkTfdt 0 0) (canon 0 []) (mkMdat [] [] 0 false) eq_refl ltac:(cbn; lia)).
+  change (moof_size (one_m (create_tfhd T) (mkTfdt 0 0) (canon 0 []) (mkMdat [] [] 0 false)) + 8) with 92.
+  change (i32 92) with 92%Z.
+  cbn [one_m fr_trafs tf_truns existsb all_truns flat_map fr_mdat fr_next].
+  unfold doff_unset, has_doff. cbn [tr_with_doff canon tr_flags tr_doff].
+  change (N.testbit 3841 B_DOFF) with true. cbn [andb orb Z.eqb].
+  rewrite (touch_id (mkMdat [] [] 0 false) eq_refl ltac:(cbn; lia)).
+  eexists. split; [reflexivity|]. intros tx.
+  unfold read_back, get_full_samples, decoded_view, fr_with.
+  cbn [fr_trafs fr_mdat fr_pre fr_moofx fr_post map tf_hd tf_dt tf_truns tf_extra df_trafs find create_tfhd tf_track].
+  destruct (T =? tx_track tx); [|reflexivity]. cbn [rbind].
+  cbn [tf_hd tf_truns tf_dt td_base one_m fr_pre fr_moofx fr_post].
+  rewrite frag_full_samples_nil by reflexivity. cbv zeta.
+  cbn [df_moof_start df_payload_abs df_data md_lazy md_written md_parts md_data md_header_size md_large].
+  change (has_doff (wire_trun (tr_with_doff (canon 0 []) 92))) with true.
+  change (tr_doff (wire_trun (tr_with_doff (canon 0 []) 92))) with 92%Z.
+  change (tf_has_bdo (create_tfhd T)) with false. cbv iota.
+  change (moof_size (mkFrag [mkTraf (create_tfhd T) (mkTfdt 0 0) [tr_with_doff (canon 0 []) 92] 0]
+                            (mkMdat [] [] 0 false) 1 0 0 0)) with 84.
+  assert (Hbo : to_u64 (92 + Z.of_N (pos0 + 0)) = pos0 + 92).
+  { unfold to_u64. rewrite Z.mod_small by lia. lia. }
+  rewrite Hbo.
+  assert (Hoff : u64 (pos0 + 92 + 18446744073709551616 - (pos0 + 0 + 84 + 8)) = 0).
+  { replace (pos0 + 92 + 18446744073709551616 - (pos0 + 0 + 84 + 8)) with 18446744073709551616 by lia. reflexivity. }
+  rewrite Hoff. destruct (0 <? pos0 + 92); cbn; reflexivity.
+Qed.
+
+
+Lemma insert_empties T pos0 (tx : C05Model.trex) : pos0 < 4611686018427387904 ->
+  forall (segs : list (list C11Model.fsample)) fes' outs',
+  Forall2 (fun seg fe => write_segment false T (map to_full seg) = Ok fe) (nonempty_pieces segs) fes' ->
+  read_all (read_back tx pos0 []) fes' = Ok outs' ->
+  exists fes outs, Forall2 (fun seg fe => write_segment false T (map to_full seg) = Ok fe) segs fes /\
+                   read_all (read_back tx pos0 []) fes = Ok outs /\ concat outs = concat outs'.
+Proof.
+  intros Hpos. induction segs as [|seg r IH]; intros fes' outs' Hw Hr.
+  - cbn in Hw. inversion Hw; subst. cbn in Hr. injection Hr as <-. exists [], []. repeat split. constructor.
+  - destruct seg as [|s seg'].
+    + cbn [nonempty_pieces filter] in Hw. destruct (IH fes' outs' Hw Hr) as [fes [outs [H1 [H2 H3]]]].
+      destruct (write_segment_empty T pos0 Hpos) as [fe0 [Hw0 Hr0]].
+      exists (fe0 :: fes), ([] :: outs). split; [constructor; [exact Hw0|exact H1]|]. split.
+      * cbn [read_all]. rewrite (Hr0 tx). cbn [rbind]. rewrite H2. reflexivity.
+      * exact H3.
+    + cbn [nonempty_pieces filter] in Hw. inversion Hw as [|? fe ? fes1 Hw1 Hw2]; subst.
+      cbn [read_all] in Hr. destruct (read_back tx pos0 [] fe) as [o| | |] eqn:Eo; cbn [rbind] in Hr; try discriminate.
+      destruct (read_all (read_back tx pos0 []) fes1) as [rest| | |] eqn:Er; cbn [rbind] in Hr; try discriminate.
+      injection Hr as <-. destruct (IH fes1 rest Hw2 Er) as [fes [outs [H1 [H2 H3]]]].
+      exists (fe :: fes), (o :: outs). split; [constructor; assumption|]. split.
+      * cbn [read_all]. rewrite Eo. cbn [rbind]. rewrite H2. reflexivity.
+      * cbn [concat]. rewrite H3. reflexivity.
+Qed.
+
+(* Resegment as the tool runs it (no trun optimisation): EVERY output segment, the possibly empty first one
+   included, is written without error, and the decoded segments concatenate to the input *)
+Lemma resegment_total_all d ss segs T pos0 (tx : C05Model.trex) :
+  contiguous_list ss = true -> times_fit ss -> 16 * lenN ss + bytes_of ss + 200 < 2147483648 ->
+  tx_track tx = T -> pos0 < 4611686018427387904 ->
+  resegment d ss = Ok segs ->
+  exists fes outs,
+    Forall2 (fun seg fe => write_segment false T (map to_full seg) = Ok fe) segs fes /\
+    read_all (read_back tx pos0 []) fes = Ok outs /\ concat outs = map to_full ss.
+Proof.
+  intros Hc Hf Hb Htx Hpos Hr.
+  destruct (resegment_total d ss segs false T pos0 tx Hc Hf Hb Htx Hpos Hr) as [fes' [outs' [Hw [Hro Hco]]]].
+  destruct (insert_empties T pos0 tx Hpos segs fes' outs' Hw Hro) as [fes [outs [H1 [H2 H3]]]].
+  exists fes, outs. split; [exact H1|]. split; [exact H2|]. rewrite H3. exact Hco.
+Qed.
